@@ -12,3 +12,4 @@ pub mod value;
 pub use spec::*;
 pub use subject::*;
 pub use value::*;
+pub mod serde_mon;
